@@ -21,12 +21,50 @@ from ..core import Unsupported, un
 _OPEN = (types.SimpleNamespace, _dt.timedelta, _dt.datetime, _dt.date, _dt.time, _dt.tzinfo, dict)
 
 
+class Stub(types.SimpleNamespace):
+    """a stub value built by a checker; when it carries `_eqkey` it compares like the thing it stands for (e.g. two aware
+    datetimes with the same tzinfo compare by their wall clock fields, whatever their fold)"""
+
+    def __eq__(self, other):
+        if isinstance(other, Stub) and hasattr(self, "_eqkey") and hasattr(other, "_eqkey"):
+            return self._eqkey == other._eqkey
+        return self is other
+
+    def __ne__(self, other):
+        return not self.__eq__(other)
+
+    def __lt__(self, other):
+        return self._eqkey < other._eqkey
+
+    def __le__(self, other):
+        return self._eqkey <= other._eqkey
+
+    def __gt__(self, other):
+        return self._eqkey > other._eqkey
+
+    def __ge__(self, other):
+        return self._eqkey >= other._eqkey
+
+    __hash__ = object.__hash__
+
+
 class _Return(Exception):
     def __init__(self, value):
         self.value = value
 
 
-_BUILTINS = {"int": int, "str": str, "len": len, "bool": bool, "abs": abs, "divmod": divmod, "min": min, "max": max, "round": round,
+class _Break(Exception):
+    pass
+
+
+class _Continue(Exception):
+    pass
+
+
+MAX_ITER = 400
+
+
+_BUILTINS = {"range": range, "int": int, "str": str, "len": len, "bool": bool, "abs": abs, "divmod": divmod, "min": min, "max": max, "round": round,
              "float": float}
 _STR_METHODS = {"startswith", "endswith", "split", "replace", "zfill", "ljust", "rjust", "strip", "lstrip", "rstrip", "upper", "lower",
                 "find", "count", "isdigit", "partition", "rpartition", "join", "format"}
@@ -121,10 +159,16 @@ def ev(n: ast.AST, env: dict[str, Any], funcs: dict[str, ast.FunctionDef] | None
         if isinstance(n.func, ast.Name):
             if n.func.id == "cast" and len(args) == 2:
                 return args[1]
+            if n.func.id == "getattr" and len(args) in (2, 3) and isinstance(args[0], _OPEN) and isinstance(args[1], str):
+                return getattr(*args)
             if n.func.id in _BUILTINS:
                 return _BUILTINS[n.func.id](*args, **kws)
             if n.func.id in funcs and isinstance(funcs[n.func.id], ast.FunctionDef) and depth < 4:
                 return call(funcs[n.func.id], args, kws, funcs, depth + 1)
+        if isinstance(n.func, ast.Call) or (isinstance(n.func, ast.Name) and callable(env.get(n.func.id)) and isinstance(env.get(n.func.id), types.FunctionType)):
+            f = ev(n.func, env, funcs, depth)
+            if isinstance(f, (types.FunctionType, types.MethodType)):
+                return f(*args, **kws)
         if isinstance(n.func, ast.Attribute):
             recv = ev(n.func.value, env, funcs, depth)
             if isinstance(recv, str) and n.func.attr in _STR_METHODS:
@@ -172,6 +216,42 @@ def run(stmts: list[ast.stmt], env: dict[str, Any], funcs: dict[str, ast.Functio
             run(s.body if ev(s.test, env, funcs, depth) else s.orelse, env, funcs, depth)
         elif isinstance(s, ast.Return):
             raise _Return(ev(s.value, env, funcs, depth) if s.value is not None else None)
+        elif isinstance(s, ast.While):
+            it = 0
+            broke = False
+            while ev(s.test, env, funcs, depth):
+                it += 1
+                if it > MAX_ITER:
+                    raise Unsupported("loop does not terminate within the iteration bound")
+                try:
+                    run(s.body, env, funcs, depth)
+                except _Break:
+                    broke = True
+                    break
+                except _Continue:
+                    continue
+            if not broke and s.orelse:
+                run(s.orelse, env, funcs, depth)
+        elif isinstance(s, ast.For):
+            seq = list(ev(s.iter, env, funcs, depth))
+            if len(seq) > MAX_ITER:
+                raise Unsupported("loop too long")
+            broke = False
+            for item in seq:
+                bind(s.target, item, env)
+                try:
+                    run(s.body, env, funcs, depth)
+                except _Break:
+                    broke = True
+                    break
+                except _Continue:
+                    continue
+            if not broke and s.orelse:
+                run(s.orelse, env, funcs, depth)
+        elif isinstance(s, ast.Break):
+            raise _Break()
+        elif isinstance(s, ast.Continue):
+            raise _Continue()
         elif isinstance(s, (ast.Pass,)):
             pass
         elif isinstance(s, ast.Expr) and isinstance(s.value, ast.Constant):
